@@ -486,7 +486,7 @@ func (e *Engine) mapPath(x ast.Expr, v *Val) string {
 			return "g:" + obj.Name()
 		}
 	}
-	if v.Kind == KField || v.Kind == KGlobal {
+	if v.Kind == KField || v.Kind == KGlobal || v.Kind == KAlloc && v.Field != nil && v.Path != "" {
 		return v.Path
 	}
 	return v.Loc()
